@@ -246,7 +246,8 @@ func runFsutil(cfg Cfg) {
 
 	// 3. random bases x random urls over a larger alphabet
 	segs := []string{"", ".", "..", "...", "a", "b", "data", "etc", "passwd", "..a", "a..", ". ", " ", "\\", "..\\..", "~",
-		"\x00", "a\x00b", "\xff", "\x80.", "é", "日本", "%2e%2e", "a b", ".a", "-", "C:", "*"}
+		"\x00", "a\x00b", "\xff", "\x80.", "é", "日本", "%2e%2e", "a b", ".a", "-", "C:", "*",
+		"..;", "..;x=1", ";", "a;b", ".;", "..?", "..#", ".well-known", "....", "%2e."}
 	rbytes := []byte{'/', '/', '/', '.', '.', '.', 'a', 'b', '\\', '~', ' ', 0, 0x80, 0xff, '%', 0xc3, 0xa9}
 	randPath := func(r *Rng) string {
 		switch r.Intn(3) {
